@@ -4,10 +4,13 @@ import (
 	"fmt"
 	"net/http"
 	"sync"
+	"sync/atomic"
 	"time"
 
 	"github.com/bluenviron/gortsplib/v5"
 	"github.com/bluenviron/gortsplib/v5/pkg/base"
+	"github.com/bluenviron/gortsplib/v5/pkg/description"
+	"github.com/bluenviron/gortsplib/v5/pkg/format"
 	"github.com/pion/rtp"
 
 	"verif/lib/rig"
@@ -256,4 +259,128 @@ func runRefusedThenOther(i int) {
 		}
 	}
 	run.Count("refused-then-other:observations-checked", int64(len(obs)))
+}
+
+// runTwoDescribesThenSwitch: the client describes stream A, then stream B (probing), then sets up
+// and plays A's medias; UDP is discarded, so it rebuilds the session over TCP by itself. Every
+// SETUP and PLAY - before and after the rebuild - belongs to A: the handlers must see A's path and
+// query, never B's.
+func runTwoDescribesThenSwitch(i int) {
+	evals.Add(1)
+	r := run.Rand("two-describes-switch", i)
+	as := [][2]string{{"/cam/streamA", "res=hd&key=a%2Fb"}, {"/a", ""}, {"/x/trackID=3", "t=1"}}
+	bs := [][2]string{{"/cam/streamB", "res=sd"}, {"/b/c", ""}, {"/y", "trackID=2"}}
+	a, b := as[r.Intn(len(as))], bs[r.Intn(len(bs))]
+	c := redirectCase{Kind: "two-describes-then-transport-switch", OldPath: a[0], OldQuery: a[1], NewPath: b[0], NewQuery: b[1]}
+	var mu sync.Mutex
+	var seen []rdObs
+	note := func(kind, path, query string) {
+		mu.Lock()
+		seen = append(seen, rdObs{kind, path, query})
+		mu.Unlock()
+	}
+	ts, err := rig.StartServer(rig.ServerOpts{UDP: true, HandlerSet: "full", NoLog: true,
+		PreStart: func(t *rig.TestServer) {
+			t.Core.Describe = func(ctx *gortsplib.ServerHandlerOnDescribeCtx) (*base.Response, *gortsplib.ServerStream, error) {
+				note("describe", ctx.Path, ctx.Query)
+				return &base.Response{StatusCode: base.StatusOK}, t.Stream, nil
+			}
+			t.Core.Setup = func(ctx *gortsplib.ServerHandlerOnSetupCtx) (*base.Response, *gortsplib.ServerStream, error) {
+				note("setup", ctx.Path, ctx.Query)
+				return &base.Response{StatusCode: base.StatusOK}, t.Stream, nil
+			}
+			t.Core.Play = func(ctx *gortsplib.ServerHandlerOnPlayCtx) (*base.Response, error) {
+				note("play", ctx.Path, ctx.Query)
+				return &base.Response{StatusCode: base.StatusOK}, nil
+			}
+		}})
+	if err != nil {
+		run.Fatal("two-describes: server: %v", err)
+	}
+	defer ts.Close()
+	mkURL := func(pq [2]string) *base.URL {
+		s := ts.URL(pq[0])
+		if pq[1] != "" {
+			s += "?" + pq[1]
+		}
+		u, _ := base.ParseURL(s)
+		return u
+	}
+	ua, ub := mkURL(a), mkURL(b)
+	var switched atomic.Bool
+	cl := &gortsplib.Client{Scheme: ua.Scheme, Host: ua.Host, ReadTimeout: 10 * time.Second, WriteTimeout: 10 * time.Second,
+		InitialUDPReadTimeout: 400 * time.Millisecond, ListenPacket: rig.BlackholeListenPacket,
+		OnTransportSwitch: func(error) { switched.Store(true) }}
+	got := make(chan struct{}, 1)
+	if err := cl.Start(); err != nil {
+		run.Fatal("two-describes: client: %v", err)
+	}
+	defer cl.Close()
+	da, _, err := cl.Describe(ua)
+	if err != nil {
+		run.Inconclusive("two-describes: DESCRIBE A failed: " + err.Error())
+		return
+	}
+	if _, _, err := cl.Describe(ub); err != nil {
+		run.Inconclusive("two-describes: DESCRIBE B failed: " + err.Error())
+		return
+	}
+	if err := cl.SetupAll(da.BaseURL, da.Medias); err != nil {
+		run.Inconclusive("two-describes: SETUP failed: " + err.Error())
+		return
+	}
+	cl.OnPacketRTPAny(func(*description.Media, format.Format, *rtp.Packet) {
+		select {
+		case got <- struct{}{}:
+		default:
+		}
+	})
+	if _, err := cl.Play(nil); err != nil {
+		run.Inconclusive("two-describes: PLAY failed: " + err.Error())
+		return
+	}
+	stop := make(chan struct{})
+	var wg sync.WaitGroup
+	wg.Add(1)
+	go func() {
+		defer wg.Done()
+		m := ts.Stream.Desc.Medias[0]
+		for k := 0; ; k++ {
+			select {
+			case <-stop:
+				return
+			case <-time.After(5 * time.Millisecond):
+			}
+			_ = ts.Stream.WritePacketRTP(m, &rtp.Packet{Header: rtp.Header{Version: 2, PayloadType: m.Formats[0].PayloadType(), SequenceNumber: uint16(k), Timestamp: uint32(k) * 3000, SSRC: 1}, Payload: []byte("two-describes")})
+		}
+	}()
+	select {
+	case <-got:
+	case <-time.After(12 * time.Second):
+	}
+	close(stop)
+	wg.Wait()
+	mu.Lock()
+	obs := append([]rdObs(nil), seen...)
+	mu.Unlock()
+	run.Count("cases:two-describes-then-transport-switch", 1)
+	run.Distinct(fmt.Sprintf("two-describes|%s|%s", a[0], b[0]))
+	if !switched.Load() {
+		run.Inconclusive("two-describes: the client never switched transport")
+		return
+	}
+	for k, ob := range obs {
+		if ob.Kind == "describe" {
+			continue
+		}
+		if (ob.Path != a[0] && ob.Path != a[0][1:]) || ob.Query != a[1] {
+			w := c
+			w.Step = ob.Kind
+			run.Violation("switch/"+ob.Kind+"/url-of-another-described-stream",
+				fmt.Sprintf("the client described %s?%s, then %s?%s, and played the first: the %s handler (observation %d of %d) saw path %q query %q", a[0], a[1], b[0], b[1], ob.Kind, k+1, len(obs), ob.Path, ob.Query),
+				map[string]any{"case": w, "observations": obs})
+			return
+		}
+	}
+	run.Count("two-describes:observations-checked", int64(len(obs)))
 }
